@@ -83,10 +83,10 @@ func (e *SyncedCachedEnforcer) Enforce(rvals ...interface{}) (bool, error) {
 }
 
 func (e *SyncedCachedEnforcer) LoadPolicy() error {
-	if atomic.LoadInt32(&e.enableCache) != 0 {
-		if err := e.cache.Clear(); err != nil {
-			return err
-		}
+	// invalidate even while the cache is disabled: entries cached earlier must not be
+	// served once it is enabled again
+	if err := e.cache.Clear(); err != nil {
+		return err
 	}
 	return e.SyncedEnforcer.LoadPolicy()
 }
@@ -150,12 +150,10 @@ func (e *SyncedCachedEnforcer) InvalidateCache() error {
 }
 
 func (e *SyncedCachedEnforcer) checkOneAndRemoveCache(params ...interface{}) (bool, error) {
-	if atomic.LoadInt32(&e.enableCache) != 0 {
-		key, ok := e.getKey(params...)
-		if ok {
-			if err := e.cache.Delete(key); err != nil && err != cache.ErrNoSuchKey {
-				return false, err
-			}
+	key, ok := e.getKey(params...)
+	if ok {
+		if err := e.cache.Delete(key); err != nil && err != cache.ErrNoSuchKey {
+			return false, err
 		}
 	}
 	return true, nil
@@ -163,16 +161,14 @@ func (e *SyncedCachedEnforcer) checkOneAndRemoveCache(params ...interface{}) (bo
 
 func (e *SyncedCachedEnforcer) checkManyAndRemoveCache(rules [][]string) (bool, error) {
 	if len(rules) != 0 {
-		if atomic.LoadInt32(&e.enableCache) != 0 {
-			irule := make([]interface{}, len(rules[0]))
-			for _, rule := range rules {
-				for i, param := range rule {
-					irule[i] = param
-				}
-				key, _ := e.getKey(irule...)
-				if err := e.cache.Delete(key); err != nil && err != cache.ErrNoSuchKey {
-					return false, err
-				}
+		irule := make([]interface{}, len(rules[0]))
+		for _, rule := range rules {
+			for i, param := range rule {
+				irule[i] = param
+			}
+			key, _ := e.getKey(irule...)
+			if err := e.cache.Delete(key); err != nil && err != cache.ErrNoSuchKey {
+				return false, err
 			}
 		}
 	}
